@@ -24,8 +24,8 @@ def lines_valid(data):
     return None
 
 
-def parked_pairs(ctx, r):
-    base, v, trace = crash.build_state(ctx, r, 8 + r.n(8))
+def parked_pairs(ctx, r, big=0):
+    base, v, trace = crash.build_state(ctx, r, 8 + r.n(8), big=big)
     try:
         reqA, agA = pick_cmd(ctx, r, v, "A")
         reqB, agB = pick_cmd(ctx, r, v, "B")
@@ -240,14 +240,15 @@ def run(ctx):
         st.close()
     r = gen.Rng(ctx.seed * 1000003 + 2)
     for i in range(7 if ctx.quick else 150):
-        parked_pairs(ctx, r.fork())
+        parked_pairs(ctx, r.fork(), big=(400 if i % 3 == 1 else 0))
     for i in range(14 if ctx.quick else 400):
         free_mix(ctx, r.fork())
     # two-process schedules with A parked before, inside and after its lock section
     a_kinds = ["compact", "plan", "prune", "claim_oldest", "sequence", "set+state", "new+state", "claim_id"]
     for i in range(8 if ctx.quick else 200):
+        # every fourth on a log of several hundred KB: with GOGC=1 the runtime collects (and runs finalizers) inside the lock section
         explore2.explore(ctx, "C02", r.fork(), kindsA=(a_kinds[i % len(a_kinds)],), kindsB=("new", "set", "reopen", "claim_oldest", "set+state"),
-                         max_points=(5 if ctx.quick else 40))
+                         max_points=(5 if ctx.quick else 40), big=(400 if i % 4 == 1 else 0))
     ctx.cov["rule"] = ("system-call programs of every writer kind (one exclusive non-blocking flock; the log read after it and before the single write / tmp+rename; unlock last); pairs of "
                        "generated commands A ∥ B with A parked (strace SIGSTOP) at first/middle/last (thorough: every) point while holding the lock: B must fail fast with lock busy and write nothing, "
                        "A's outcome must equal A alone; 2–5 commands started together: whole JSON lines, no interleaving, and the final state equals the acknowledged commands run one at "
